@@ -225,11 +225,13 @@ func (q *BooleanQuery) Searcher(i search.Reader, options search.SearcherOptions)
 		}
 	}
 
-	if q.scorer == nil {
-		q.scorer = similarity.NewCompositeSumScorerWithBoost(q.boost.Value())
+	// the query object may be shared by concurrent searches: do not write to it here
+	scorer := q.scorer
+	if scorer == nil {
+		scorer = similarity.NewCompositeSumScorerWithBoost(q.boost.Value())
 	}
 
-	return searcher.NewBooleanSearcher(mustSearcher, shouldSearcher, mustNotSearcher, q.scorer, options)
+	return searcher.NewBooleanSearcher(mustSearcher, shouldSearcher, mustNotSearcher, scorer, options)
 }
 
 func replaceMatchNoneWithNil(s search.Searcher) search.Searcher {
@@ -350,12 +352,14 @@ func (q *DateRangeQuery) Searcher(i search.Reader, options search.SearcherOption
 		field = options.DefaultSearchField
 	}
 
-	if q.scorer == nil {
-		q.scorer = similarity.ConstantScorer(1)
+	// the query object may be shared by concurrent searches: do not write to it here
+	scorer := q.scorer
+	if scorer == nil {
+		scorer = similarity.ConstantScorer(1)
 	}
 
 	return searcher.NewNumericRangeSearcher(i, min, max, q.inclusiveStart, q.inclusiveEnd, field,
-		q.boost.Value(), q.scorer, similarity.NewCompositeSumScorer(), options)
+		q.boost.Value(), scorer, similarity.NewCompositeSumScorer(), options)
 }
 
 func (q *DateRangeQuery) parseEndpoints() (min, max float64, err error) {
@@ -534,8 +538,10 @@ func (q *GeoBoundingBoxQuery) Searcher(i search.Reader, options search.SearcherO
 		field = options.DefaultSearchField
 	}
 
-	if q.scorer == nil {
-		q.scorer = similarity.ConstantScorer(1)
+	// the query object may be shared by concurrent searches: do not write to it here
+	scorer := q.scorer
+	if scorer == nil {
+		scorer = similarity.ConstantScorer(1)
 	}
 
 	if q.bottomRight[0] < q.topLeft[0] {
@@ -543,14 +549,14 @@ func (q *GeoBoundingBoxQuery) Searcher(i search.Reader, options search.SearcherO
 
 		leftSearcher, err := searcher.NewGeoBoundingBoxSearcher(i,
 			minLon, q.bottomRight[1], q.bottomRight[0], q.topLeft[1],
-			field, q.boost.Value(), q.scorer, similarity.NewCompositeSumScorer(),
+			field, q.boost.Value(), scorer, similarity.NewCompositeSumScorer(),
 			options, true, geoPrecisionStep)
 		if err != nil {
 			return nil, err
 		}
 		rightSearcher, err := searcher.NewGeoBoundingBoxSearcher(i,
 			q.topLeft[0], q.bottomRight[1], maxLon, q.topLeft[1],
-			field, q.boost.Value(), q.scorer, similarity.NewCompositeSumScorer(),
+			field, q.boost.Value(), scorer, similarity.NewCompositeSumScorer(),
 			options, true, geoPrecisionStep)
 		if err != nil {
 			_ = leftSearcher.Close()
@@ -562,7 +568,7 @@ func (q *GeoBoundingBoxQuery) Searcher(i search.Reader, options search.SearcherO
 	}
 
 	return searcher.NewGeoBoundingBoxSearcher(i, q.topLeft[0], q.bottomRight[1], q.bottomRight[0], q.topLeft[1],
-		field, q.boost.Value(), q.scorer, similarity.NewCompositeSumScorer(),
+		field, q.boost.Value(), scorer, similarity.NewCompositeSumScorer(),
 		options, true, geoPrecisionStep)
 }
 
@@ -1152,11 +1158,13 @@ func (q *NumericRangeQuery) Searcher(i search.Reader, options search.SearcherOpt
 	if q.field == "" {
 		field = options.DefaultSearchField
 	}
-	if q.scorer == nil {
-		q.scorer = similarity.ConstantScorer(q.boost.Value())
+	// the query object may be shared by concurrent searches: do not write to it here
+	scorer := q.scorer
+	if scorer == nil {
+		scorer = similarity.ConstantScorer(q.boost.Value())
 	}
 	return searcher.NewNumericRangeSearcher(i, q.min, q.max, q.inclusiveMin, q.inclusiveMax, field,
-		q.boost.Value(), q.scorer, similarity.NewCompositeSumScorer(), options)
+		q.boost.Value(), scorer, similarity.NewCompositeSumScorer(), options)
 }
 
 func (q *NumericRangeQuery) Validate() error {
